@@ -1308,3 +1308,76 @@ def validate_spline_modifier(run, n=80):
     finally:
         mods.Spline_Point, mods.Exp_Spline, mods.Buck4_Spline, mods.Custom_SplinePotential = saved
     return len(cases)
+
+
+def validate_trans_modifier(run, n=60):
+    """the regenerated trans() modifier against the real function: 0-3 argument definitions (the real namedtuples; first arguments with and without further ranges and
+    with either range marker, second arguments that are `as.constant` with 0-2 parameters, another form, or a modifier); the form builder is a stand-in whose callable
+    tells what it was built from; the returned closure is evaluated (value, deriv, deriv2) to read off the shift"""
+    import atsim.potentials.config
+    from atsim.potentials import _modifiers as mods
+    from atsim.potentials.config._common import (PotentialFormInstanceTuple, PotentialModifierTuple, MultiRangeDefinitionTuple, ConfigurationException)
+    ok, log = build_gen()
+    if not ok:
+        run.tie_broken("translator", "Gen/Logic.lean (trans modifier)", "the regenerated definitions (or their driver) do not build: " + log[-600:])
+        return 0
+    rng = run.rng
+    cases, reqs = [], []
+    for _ in range(n):
+        nargs = rng.choice([2] * 10 + [0, 1, 3])
+        forms, js = [], []
+        for i in range(nargs):
+            rt, st = rng.choice([">", ">="]), rng.randint(0, 12) / 4.0
+            nxt, jn = None, None
+            if i == 0 and rng.random() < 0.4:
+                nxt = PotentialFormInstanceTuple("as.other", [50.0], MultiRangeDefinitionTuple(">", st + 1.0), None)
+                jn = dict(mod=False, name="as.other", params=["50"], start=dict(rt=">", start=common.fq(Fr(st + 1.0))), next=None)
+            if i == 1:
+                r = rng.random()
+                if r < 0.7:
+                    name, params, mod = "as.constant", [rng.randint(-8, 8) / 4.0], False
+                    if rng.random() < 0.2:
+                        params = rng.choice([[], params + [1.0]])
+                elif r < 0.85:
+                    name, params, mod = "as.polynomial", [1.0], False
+                else:
+                    name, params, mod = "sum", [], True
+            else:
+                name, params, mod = "as.first", [float(10 + i)], False
+            rs = MultiRangeDefinitionTuple(rt, st)
+            forms.append(PotentialModifierTuple(name, [], rs, nxt) if mod else PotentialFormInstanceTuple(name, params, rs, nxt))
+            js.append(dict(mod=mod, name=name, params=[common.fq(Fr(p)) for p in params], start=dict(rt=rt, start=common.fq(Fr(st))), next=jn))
+        cases.append(forms)
+        reqs.append(dict(op="trans_modifier", forms=js))
+    bad = 0
+    for forms, a in zip(cases, query_gen(reqs)):
+        class Builder(object):
+            def create_potential_function(self, p):
+                code = int(p.parameters[0]) * 4 + (2 if p.next is not None else 0) + (1 if p.start.range_type == ">=" else 0)
+
+                def f(r):
+                    return code * 1000.0 + r
+                f.deriv = lambda r: 7000.0 + r
+                f.deriv2 = lambda r: 9000.0 + r
+                return f
+        try:
+            t = mods.trans(list(forms), Builder())
+            v = t(0.0)
+            code = int(v // 1000)
+            X = v - code * 1000.0
+            if X > 500:
+                code, X = code + 1, X - 1000.0
+            okd = hasattr(t, "deriv") and hasattr(t, "deriv2") and t.deriv(0.25) == 7000.0 + 0.25 + X and t.deriv2(0.5) == 9000.0 + 0.5 + X
+            real = [code, common.fq(Fr(X))] if okd else "derivatives not carried over"
+        except ConfigurationException as e:
+            m = str(e)
+            real = "notTwoArguments" if "only accepts two arguments" in m else "secondNotConstant" if "must be 'as.constant'" in m else "notOneParameter" if "exactly one parameter" in m else "config: " + m[:60]
+        except Exception as e:
+            real = "internal: %s: %s" % (type(e).__name__, e)
+        run.traces += 1
+        run.dist["translator-validation/trans_modifier/%s" % (real if isinstance(real, str) else "ok")] += 1
+        if real != a:
+            bad += 1
+            if bad <= 2:
+                run.tie_broken("translator", "generated trans() modifier vs the real function", "arguments %r: real %s generated %s" % (forms, real, a))
+    return len(cases)
